@@ -110,3 +110,19 @@ package basicauth
 //@ use casketfile/contracts_verif.go:dispenser_api
 //@ use @verif/specs/stdlib.spec:stdlib
 //@ use @verif/specs/stdlib.spec:casket_api
+
+//@ unit htpasswd_parse frames=on props=C03,C08,C19 nilchecks=on filter=`basicauth\.parseHtpasswd$`
+//@ // what htpasswd_cache assumes of the parser, proved: it writes entries into the table it was given and into no other,
+//@ // and its line slicing is in range for every line of the file (parsedOK in that unit merely names "returned nil")
+//@ use @verif/specs/stdlib.spec:stdlib
+//@ extern bufio.NewScanner
+//@   ensures result != nil
+//@ extern (*bufio.Scanner).Scan
+//@ extern (*bufio.Scanner).Text
+//@ extern (*bufio.Scanner).Err
+//@ func parseHtpasswd
+//@   requires pm != nil
+//@   modifies MV:map[string]github.com/tmpim/casket/caskethttp/basicauth.PasswordMatcher, MD:map[string]github.com/tmpim/casket/caskethttp/basicauth.PasswordMatcher
+//@   ensures [only_the_given_table] unchanged_except("map:map[string]github.com/tmpim/casket/caskethttp/basicauth.PasswordMatcher", pm)
+//@   loop 1 invariant unchanged_except("map:map[string]github.com/tmpim/casket/caskethttp/basicauth.PasswordMatcher", pm)
+//@   loop 2 invariant unchanged_except("map:map[string]github.com/tmpim/casket/caskethttp/basicauth.PasswordMatcher", pm)
